@@ -261,6 +261,62 @@ int main(int argc, char** argv) {
                 ctx.violation(fmt("length:operand-executed:%s", e.form.name),
                               fmt("opcode %04x: the operand word at %05x is fetched as the next instruction", op, pc0 + 1), op);
         }
+
+        // position twin: the same instruction from the same state at an address in program page 0 and at one in
+        // page 1. Afterwards pc is either position-relative (pc1 - pc0 equal in both runs: sequential or a relative
+        // branch) or absolute (equal pc1: jump/call/return/computed target). Anything else means the second word was not consumed as the length says (e.g. a pc that
+        // loses its upper bits). Must show in two independent states.
+        {
+            static const u32 kPage0[] = {0x0F345, 0x0FFFD, 0x00400, 0x08001};
+            static const u32 kPage1[] = {0x12345, 0x1ABCD, 0x1FFF8, 0x10000};
+            int bad_adv = 0, ran2 = 0;
+            std::string adv_detail;
+            for (int rep = 0; rep < 2; ++rep) {
+                u32 pa = kPage0[g.below(4)], pb = kPage1[g.below(4)];
+                CaseState s = fetch_state(g, pa);
+                bool clash = false;
+                for (const char* n : {"a[0]", "a[1]", "b[0]", "b[1]"}) {
+                    u32 low = (u32)(s[n] & 0x3FFFF);
+                    clash |= low >= pb && low <= pb + 2;
+                }
+                if (clash)
+                    continue;
+                u32 after[2];
+                bool okrun = true;
+                for (int w = 0; w < 2 && okrun; ++w) {
+                    u32 at = w ? pb : pa;
+                    s["pc"] = at;
+                    m.clean();
+                    m.load(s);
+                    m.prog(at, op);
+                    m.prog(at + 1, exp);
+                    RunResult r = m.run(1);
+                    okrun = r.outcome == OK;
+                    after[w] = m.core.regs.pc;
+                }
+                if (!okrun)
+                    continue;
+                ++ran2;
+                s64 da = (s64)after[0] - (s64)pa, db = (s64)after[1] - (s64)pb;
+                u32 len = iexp ? 2 : 1;
+                bool relative = da == db, absolute = after[0] == after[1];
+                // (a one-word relative branch by +1 also gives a delta of 2, so the delta itself is not compared with the
+                // length here: that the second word is read iff the opcode is expanded is decided by the fetch log above)
+                bool ok = absolute || relative;
+                if (!ok) {
+                    ++bad_adv;
+                    adv_detail = fmt("pc %05x -> %05x and pc %05x -> %05x (length %u)", pa, after[0], pb, after[1], len);
+                }
+            }
+            if (ran2 == 2) {
+                ctx.count("position_twins_observed");
+                if (bad_adv == 2)
+                    ctx.violation(fmt("length:pc-advance:%s", e.form.name),
+                                  fmt("opcode %04x: pc after the instruction is neither position-relative (sequential / relative branch) nor absolute: %s",
+                                      op, adv_detail.c_str()),
+                                  op);
+            }
+        }
     }
 
     // ---------------------------------------------------------------- 4. unused bits
